@@ -93,7 +93,9 @@ fn layout(c: &mut Ctx, n: usize) -> (Vec<[f64; 2]>, &'static str) {
 }
 
 fn run(c: &mut Ctx) {
-    let n = if c.thorough && c.rng.chance(0.02) {
+    let n = if c.tiny {
+        c.rng.int(6, 40)
+    } else if c.thorough && c.rng.chance(0.02) {
         5000
     } else if c.rng.chance(0.05) {
         c.rng.int(1000, 2500)
